@@ -453,9 +453,17 @@ def check_interleavings(ctx, seed_mul=13, offset=4, nl=None, heavy=True):
     res = {'name': 'interleaving-differential-test (translation validation)', 'n': 0, 'nontrivial': 0,
            'samples': [], 'disagreements': [],
            'histogram': {'lenses': 0, 'variants': {}, 'raised': 0, 'calls_per_lens': 0}}
-    specs = _specs(ctx, rng, nl, ['plain', 'vignetting', 'coated', 'polarized', 'newton', 'any'])
+    specs = c13.pending_specs() + _specs(ctx, rng, nl, ['plain', 'vignetting', 'coated', 'polarized', 'newton', 'any'])
+    res['histogram']['input_classes'] = ['lenses carrying pickups / solves with an edit pending (setter called, '
+                                         'update() not yet) around every read-only call',
+                                         'construction routes direct / handbuilt / reuse / roundtrip']
+    res['histogram']['routes'] = {}
+    res['histogram']['pending_edit_lenses'] = 0
     seen_kinds = set()
     for spec in specs:
+        c = spec.get('c13') or {}
+        res['histogram']['routes'][c.get('route', 'direct')] = res['histogram']['routes'].get(c.get('route', 'direct'), 0) + 1
+        res['histogram']['pending_edit_lenses'] += int(bool(c.get('pending_edits')))
         viol, stats = c13.interleaving(rng, spec, c13.build, heavy=heavy)
         res['n'] += stats['compared']
         res['nontrivial'] += stats['executed'] - stats['raised']
@@ -515,8 +523,10 @@ def check_batch_independence(ctx, offset=5, nl=None):
     for x in gv[:1]:
         res['disagreements'].append(dict({'kind': 'ray-depends-on-companions', 'level': x['site']}, **x,
                                          violates_property=True))
-    exc = c13.exceptional_specs()
+    exc = c13.exceptional_specs() + c13.dispersive_specs()
     h['exceptional_lenses'] = {}
+    h['mixed_wavelength_batches'] = {'dispersive_lenses': 0, 'comparisons': 0}
+    h['input_classes'].append('one trace_generic call whose rays carry DIFFERENT wavelengths, through catalogue glass')
     specs = exc + _specs(ctx, rng, nl, ['polarized', 'plain', 'polarized', 'newton', 'coated', 'polarized', 'any',
                                         'newton'])
     for spec in specs:
@@ -530,6 +540,25 @@ def check_batch_independence(ctx, offset=5, nl=None):
             h['newton_lenses'] += 1
         else:
             h['closed_form_lenses'] += 1
+        if c13.is_dispersive(spec):
+            # per-ray wavelengths in ONE call: the first ray's wavelength differs from the others'
+            Hx, Hy, Px, Py = c13.gen_rays(rng, spec, ctx.n(8, 12))
+            ws = [0.4861, 0.5876, 0.6563, 0.45, 0.7]
+            wl = [ws[(j * 2 + 1) % len(ws)] if j else 0.6563 for j in range(len(Px))]
+            try:
+                viol, worst, n = c13.batch_independence(o, Hx, Hy, Px, Py, wl, rng, subsets=2, mode='trace_generic')
+                h['mixed_wavelength_batches']['dispersive_lenses'] += 1
+                h['mixed_wavelength_batches']['comparisons'] += n
+                res['n'] += n
+                res['nontrivial'] += n
+                for x in viol[:1]:
+                    res['disagreements'].append({'kind': 'ray-depends-on-companions', 'call': 'Optic.trace_generic',
+                                                 'input_class': 'mixed wavelengths in one call', 'part': x.get('part'),
+                                                 'ray': x['ray'], 'group': x['group'], 'why': x['why'],
+                                                 'deviation': x.get('deviation'), 'wavelengths': wl,
+                                                 'rays': [Hx, Hy, Px, Py], 'spec': spec, 'violates_property': True})
+            except Exception:   # noqa
+                h['raised'] += 1
         for mode in ('trace_generic', 'trace'):
             if spec.get('name') and spec['variant'].startswith('exceptional'):
                 Hx, Hy, Px, Py = c13.fan_rays(rng, spec, 9)        # whole pupil: central zone AND the lost rim
